@@ -199,6 +199,58 @@ Proof.
 Qed.
 Print Assumptions C08_strict_feasible_implies_feasible.
 
+(* 3d. the default-penalty QUBOs (C04).  For any constrained 0-1 program s = (A, b, R, c, Qo) with R >= 0,
+   S >= the sum of the |objective coefficients| and a feasible point: the binary minimisers of
+   get_qubo(False, None) built with rho = S + 1 are the constrained optima and the minimum is the optimal
+   value.  (C04_default_exact restated in the vocabulary of this file; C08_path_qubo is its instance for the
+   path data, where S = S_path is proved to be the coefficient sum.) *)
+Theorem C08_qubo_of_program : forall (s : zsys) (S : Z),
+  R_nonneg (zs_cols s) (zs_R s) -> coeff_sum (zs_cols s) (zs_c s) (zs_Qo s) <= S ->
+  (exists z, sys_feasible s z) ->
+  (forall x, sys_qubo_min s S x <->
+             (sys_feasible s x /\ forall y, sys_feasible s y -> sys_value s x <= sys_value s y)) /\
+  (forall x y, sys_qubo_min s S x -> sys_feasible s y ->
+               (forall z, sys_feasible s z -> sys_value s y <= sys_value s z) ->
+               sys_qubo_value s S x = sys_value s y).
+Proof. exact sys_default_exact. Qed.
+Print Assumptions C08_qubo_of_program.
+
+(* Sequence-based QUBOs.  FULL statements: the two theorems below with
+     S := S_seq (Z.of_nat (Seq.iL I)) (arc costs of Seq.ig I) (Seq.ivc I)  = get_sufficient_penalty(False).
+   PROVED (_partial): the same for every S with  coeff_sum n (cvec I) (Qo I) <= S  as a hypothesis.
+   MISSING: `coeff_sum (Seq.num_variables I) (Seq.cvec I) (Seq.Qo I) <= S_seq ...` for the builders of
+   Seq.v.  C04_S_seq proves this bound for objectives given as (lin, quad) entry lists with pairwise
+   distinct (vehicle, position, arc) triples; that Seq.c_entries / Seq.q_entries have that shape is not a
+   theorem (C04's correspondence evaluates it on every instance: its tags 7-9).
+   Arc-based QUBO: not restated here at all -- C04_arc gives "QUBO minimum = constrained optimum" for
+   function vectors over the (arc index, s, t) structure, C05 / C08_arc_equiv speak about 0-1 lists over
+   Arc.vars; the translation between the two is not proved.  Both gaps are covered by the runtime oracle
+   only (brute-force minimisation of the real QUBOs, n <= 20). *)
+Theorem C08_seq_nonstrict_qubo_le_partial : forall (st : pstate) (I : Seq.inst) (E : list (nat * nat)) (S : Z),
+  Inv (pg st) -> no_depot_loop st -> seq_view st I ->
+  (1 <= num_nodes st)%nat -> (3 <= Seq.iL I)%nat ->
+  (num_nodes st - 1 <= Seq.iV I)%nat -> (num_nodes st - 1 + 2 <= Seq.iL I)%nat ->
+  Seq.R_entries I = Ok E ->
+  coeff_sum (Seq.num_variables I) (Seq.cvec I) (Seq.Qo I) <= S ->
+  forall R x, partition st R -> sys_qubo_min (seq_sys I E) S x ->
+    sys_qubo_value (seq_sys I E) S x <= total_cost st R /\
+    exists W, Seq.walk_assignment I W /\ seq_cost I W = sys_qubo_value (seq_sys I E) S x.
+Proof. exact seq_nonstrict_qubo_le. Qed.
+Print Assumptions C08_seq_nonstrict_qubo_le_partial.
+
+Theorem C08_seq_strict_qubo_ge_partial : forall (st : pstate) (I : Seq.inst) (E : list (nat * nat)) (S : Z),
+  no_depot_loop st -> seq_view_strict st I ->
+  Seq_facts.strict_graph (Seq.ig I) -> Seq_facts.windows_ok (Seq.ig I) ->
+  capacity_free st -> 0 <= nlo (Path.node_at (pg st) 0) ->
+  (1 <= num_nodes st)%nat -> (3 <= Seq.iL I)%nat ->
+  Seq.R_entries I = Ok E ->
+  coeff_sum (Seq.num_variables I) (Seq.cvec I) (Seq.Qo I) <= S ->
+  (exists z v, seq_solution I z v) ->
+  forall x, sys_qubo_min (seq_sys I E) S x ->
+    exists R, partition st R /\ total_cost st R = sys_qubo_value (seq_sys I E) S x.
+Proof. exact seq_strict_qubo_ge. Qed.
+Print Assumptions C08_seq_strict_qubo_ge_partial.
+
 (* capacity_free holds e.g. when all demands are 0 and 0 <= initial loading <= capacity (the instances of
    the runtime check) *)
 Theorem C08_capacity_free_zero_demands : forall st,
@@ -338,7 +390,7 @@ Proof.
   assert (Hpos : Arc_routes.pos_cc ex_arc).
   { intros i j a H Hi Hj. cbn [Arc.ig ex_arc] in H.
     destruct i as [|[|[|i]]]; [lia| | |]; (destruct j as [|[|[|j]]]; [lia| | |]);
-      vm_compute in H; try discriminate; inversion H; subst; simpl; lia. }
+      vm_compute in H; try discriminate H; inversion H; subst a; simpl; lia. }
   assert (Hgc : grid_complete ex_st (Arc.igrid ex_arc)).
   { split; [simpl; auto|]. intros r Hv. apply Hp in Hv. rewrite Er in Hv.
     destruct Hv as [<-|[<-|[<-|[]]]]; vm_compute; repeat (apply Forall_cons; [auto 10|]); apply Forall_nil. }
@@ -416,4 +468,16 @@ Proof.
   exists (Seq.indicator_free ex_sseq (Seq.pad_walks [[1; 2]%nat])).
   replace 9 with (seq_cost ex_sseq (Seq.pad_walks [[1; 2]%nat])) by (vm_compute; reflexivity).
   apply (walk_solution ex_st ex_sseq Hnodes Hkeys H00); [rewrite Hn; lia | simpl; lia | exact HW].
+Qed.
+
+(* the extra hypothesis of the two _partial QUBO theorems holds on the example objects with the
+   implementation's S = S_seq(L, arc costs, vehicle costs) *)
+Example C08_example_seq_qubo_hypothesis :
+  (exists E, Seq.R_entries ex_seq = Ok E) /\
+  coeff_sum (Seq.num_variables ex_seq) (Seq.cvec ex_seq) (Seq.Qo ex_seq)
+    <= S_seq 4 (map (fun kv => acost (snd kv)) (arcs ex_seq_graph)) [0; 0] /\
+  coeff_sum (Seq.num_variables ex_sseq) (Seq.cvec ex_sseq) (Seq.Qo ex_sseq)
+    <= S_seq 4 (map (fun kv => acost (snd kv)) (arcs ex_sseq_graph)) [0; 0].
+Proof.
+  split; [exact (Seq_facts.R_ok ex_seq)|]. split; vm_compute; discriminate.
 Qed.
